@@ -442,7 +442,7 @@ HARNESSES = [
             encodes=["dns.rdataset.Rdataset.add", "dns.rdataset.Rdataset.update_ttl"], bound="three add(rd, ttl) calls with symbolic TTLs on singleton (CNAME, SOA) and ordinary (A, MX) sets",
             stubs=["E6"], outside=""),
     Harness("H07c", h07c, h07c_pre, lambda tier: [{"t": int(dns.rdatatype.from_text(n)), "name": n, "max": m + (0 if tier == "quick" else 1),
-                                                     "_timeout": 900, "_path_timeout": 60} for n, m in (("MX", 5), ("TXT", 3), ("NSAP", 2))],
+                                                     "_timeout": 900 if tier == "quick" else 7200, "_path_timeout": 60} for n, m in (("MX", 5), ("TXT", 3), ("NSAP", 2))],
             kind="universal",
             encodes=["dns.rdata.Rdata.__eq__", "dns.rdata.Rdata.__lt__", "dns.rdata.Rdata._cmp", "dns.rdata.Rdata.to_digestable",
                      "dns.rdata.Rdata.__setattr__" if hasattr(dns.rdata.Rdata, "__setattr__") else "dns.immutable.immutable"],
